@@ -115,7 +115,7 @@ add("C06", M, ER, "total_fp_cost = np.sum(-signed_errors[signed_errors < 0] * se
 add("C06", M, BGL, "            - np.clip(y_pred, self.min_val, self.max_val)\n        ) ** 2", "            - np.clip(y_pred, self.min_val, self.max_val)\n        ) ** 1", "square dropped")
 add("C06", R, UP, "            event_select = 1 * (self.tags[_EVENT] == e)", "            event_select = (self.tags[_EVENT] == e).astype(int)", "indicator spelling")
 add("C06", R, UP, "        g_signed = -self.U.T.dot(pred) / self.total_samples", "        g_signed = -(self.U.T.dot(pred) / self.total_samples)", "parenthesisation")
-add("C06", R, UP, "            if not (0 < ratio_bound <= 1):", "            if ratio_bound <= 0 or ratio_bound > 1:", "De Morgan")
+add("C06", R, UP, "            if not (0 < ratio_bound <= 1):", "            if not (0 < ratio_bound) or not (ratio_bound <= 1):", "De Morgan (NaN-preserving form)")
 add("C06", R, UP, "        for e, g in self.prob_group_event.index:", "        for ev, grp in self.prob_group_event.index:\n            e, g = ev, grp", "loop variables renamed")
 add("C07", M, LAG, "redY = 1 * (signed_weights > 0)", "redY = 1 * (signed_weights < 0)", "relabel flipped")
 add("C07", M, LAG, "redW = signed_weights.abs()", "redW = signed_weights", "abs dropped")
@@ -219,7 +219,7 @@ add("C20", M, TC, "if n_positive == 0 or n_negative == 0:", "if n_positive == 0 
 add("C20", M, ER, "and costs[\"fp\"] + costs[\"fn\"] > 0.0", "and costs[\"fp\"] + costs[\"fn\"] >= 0.0", "region widened")
 add("C20", M, GS, "if not (0.0 <= constraint_weight <= 1.0):", "if not (0.0 <= constraint_weight):", "region widened")
 add("C20", R, IV, "        if enforce_binary_labels and not set(np.unique(y)).issubset(set([0, 1])):", "        if enforce_binary_labels and not set(np.unique(y)).issubset({0, 1}):", "set literal")
-add("C20", R, GS, "            if not (0.0 <= constraint_weight <= 1.0):", "            if constraint_weight < 0.0 or constraint_weight > 1.0:", "De Morgan")
+add("C20", R, GS, "            if not (0.0 <= constraint_weight <= 1.0):", "            if not (0.0 <= constraint_weight) or not (constraint_weight <= 1.0):", "De Morgan (NaN-preserving form)")
 add("C20", R, TC, "    if n_positive == 0 or n_negative == 0:", "    if not (n_positive != 0 and n_negative != 0):", "De Morgan")
 
 # ------------------------------------------------------------------ extract-method refactors (behaviour preserving)
